@@ -816,7 +816,8 @@ def _f7(sub, recipe):
         if len(op.qubits) >= 1 and op.gate is not None and not cirq.control_keys(op) and cirq.has_unitary(op) and cirq.has_stabilizer_effect(op):
             try:
                 cirq.PauliString({op.qubits[0]: cirq.X}).after([op])
-            except TypeError:
+            except (TypeError, ValueError):
+                # TypeError: act_on cannot apply the gate's decomposition; ValueError: CliffordGate.from_op_list refuses it
                 return True
     return False
 
